@@ -8,7 +8,7 @@ from . import small as SM
 CONFIG = {
     'C01': dict(xcheck=True, streams=[('td_class', 480), ('td_wf', 880), ('td_coarse', 320), ('fail_wf', 200), ('panic', 240), ('multi', 40), ('inj_cycle', 240), ('inj_hidden', 80), ('inj_overlap', 80)], keep='om'),
     'C02': dict(streams=[('td_exact', 880), ('td_wf', 480), ('td_mid', 160), ('panic', 240), ('fail_wf', 240), ('fail_exact', 320)], keep='ov'),
-    'C03': dict(streams=[('bu_class', 320), ('bu_wf', 720), ('mixed_wf', 320), ('newreq', 160), ('cutoff_newreq', 160), ('reported_products', 160), ('fail_bu', 200), ('mid_session', 160), ('abort_bu', 120)], keep='ovm', extra='lossy'),
+    'C03': dict(xcheck=True, streams=[('bu_class', 320), ('bu_wf', 720), ('mixed_wf', 320), ('newreq', 160), ('cutoff_newreq', 160), ('reported_products', 160), ('fail_bu', 200), ('mid_session', 160), ('abort_bu', 120)], keep='ovm', extra='lossy'),
     'C04': dict(xcheck=True, streams=[('bu_class', 320), ('bu_wf', 960), ('mixed_wf', 160), ('newreq', 160), ('cutoff_newreq', 240), ('reported_products', 120), ('abort_bu', 240)], keep='ov'),
     'C05': dict(streams=[('inj_hidden', 1200), ('siblings', 240), ('td_wf', 160), ('same_session', 80), ('chain_readers', 160), ('newreq', 240), ('cycle_then_hidden', 160)], keep='om', extra='wabort'),
     'C06': dict(streams=[('inj_overlap', 1200), ('td_wf', 160), ('same_session', 80), ('newreq', 160)], keep='om', extra='wabort'),
@@ -196,7 +196,8 @@ def comparable(lines, keep):
 def extraction_crosscheck(exe_model, toks_list, work, k):
     """Trusted-base reduction for the engine layer: for k of this run's histories the OCaml driver prints table, steps and the
     observable projection of what the EXTRACTED model computed as Gallina terms; the kernel then checks by vm_compute that
-    Dsl.dsl_run_history (Build.run_history at the harness's checker tables -- the function the history theorems are about) yields
+    the three session runners of the model (Build.run_history's step function, run_msession, run_zsession at the harness's checker
+    tables; the wrapper is proved equal to Dsl.dsl_run_history on plain histories in the same file) yield
     exactly that: session results, outputs, resource contents, consistent set, errors, the complete event stream, queue, and the
     dependency graph with ranks, ordered adjacency and edge data."""
     pick = [c for c in toks_list if len(c) <= 160]
@@ -210,11 +211,21 @@ def extraction_crosscheck(exe_model, toks_list, work, k):
         return {'agree': False, 'cases': 0, 'log': 'driver pieraw failed: rc=%s, %d lines for %d cases\n%s' % (rc, len(lines), len(pick), out[-800:])}
     terms = [l[2:].split(' @@ ') for l in lines if l.startswith('X ')][:k]
     v = ['From Coq Require Import List NArith ZArith.', 'Import ListNotations.', 'From PieV Require Import Model.Dag Model.Build Model.Dsl.',
+         '(* the three session runners the correspondence run uses, folded over a history exactly as the driver folds them *)',
+         'Inductive xstep := XPlain (s : step) | XM (ops : list mop) | XZ (ops : list mop).',
+         'Definition xrun (tb : table) (fuel : nat) (w : world) (x : xstep) : list sres * world :=',
+         '  match x with XPlain s => dsl_run_step tb fuel w s | XM ops => dsl_run_msession tb fuel (new_session w) ops',
+         '             | XZ ops => dsl_run_zsession tb fuel (new_session w) ops end.',
+         'Fixpoint xhist (tb : table) (fuel : nat) (w : world) (l : list xstep) : list (list sres) * world :=',
+         '  match l with [] => ([], w) | x :: tl => let (r, w1) := xrun tb fuel w x in let (rs, w2) := xhist tb fuel w1 tl in (r :: rs, w2) end.',
+         '(* on plain steps this is Build.run_history at the harness tables *)',
+         'Lemma xhist_plain tb fuel : forall l w, xhist tb fuel w (map XPlain l) = dsl_run_history tb fuel w l.',
+         'Proof. induction l as [|s tl IH]; intros w; cbn [map xhist]; [reflexivity|]. unfold dsl_run_history in *. cbn [Build.run_history xrun]. unfold dsl_run_step. destruct (Build.run_step _ _ _ _ _ _ _) as [r w1]. rewrite IH. reflexivity. Qed.',
          'Definition proj (x : list (list sres) * world) :=',
          '  (fst x, outs (snd x), rstate (snd x), consistent (snd x), errs (snd x), trace (snd x), queue (snd x),',
          '   map (fun p => (fst p, rank (snd p), kids (snd p), pars (snd p))) (infos (gr (snd x))), edata (gr (snd x))).']
     for i, (tb, steps, exp) in enumerate(terms):
-        v.append('Example xc_%d : proj (dsl_run_history %s (N.to_nat 3000) init_world %s) = %s.' % (i, tb, steps, exp))
+        v.append('Example xc_%d : proj (xhist %s (N.to_nat 3000) init_world %s) = %s.' % (i, tb, steps, exp))
         v.append('Proof. vm_compute. reflexivity. Qed.')
     vf = os.path.join(work, 'XCheckPie.v')
     open(vf, 'w').write('\n'.join(v) + '\n')
